@@ -102,6 +102,18 @@ type (
 	}
 )
 
+// Validate verifies the rules: newBroker builds the packet-type to pipeline
+// map from them and cannot start with a rule it does not understand.
+func (spec *Spec) Validate() error {
+	for i, rule := range spec.Rules {
+		if rule == nil || rule.When == nil {
+			return fmt.Errorf("rules[%d]: when is required", i)
+		}
+	}
+	_, err := getPipelineMap(spec)
+	return err
+}
+
 func (spec *Spec) tlsConfig() (*tls.Config, error) {
 	var certificates []tls.Certificate
 
